@@ -724,16 +724,24 @@ pub fn run(opts: &Opts) {
     let filter = opts.extra.first().map(|s| s == "filter").unwrap_or(false);
     if let Some(p) = &opts.replay {
         let ops = read_replay_ops(p);
+        // corpus files of both streams are offered to both: cases labelled for the other stream are skipped
         let mut sim: Option<Sim> = None;
         let mut fsim: Option<FSim> = None;
+        let mut skip = true;
         for line in &ops {
             let t: Vec<&str> = line.split_whitespace().collect();
             if t[0] == "case" {
                 let label = t[2..].join(" ");
+                skip = label.starts_with("filter") != filter;
+                if skip {
+                    continue;
+                }
                 out.begin_case(&label);
                 let epoch_len = label.split("epoch_len=").nth(1).and_then(|s| s.split_whitespace().next()).and_then(|s| s.parse().ok()).unwrap_or(1000);
                 sim = Some(Sim::new(epoch_len));
                 fsim = Some(FSim::new());
+            } else if skip {
+                continue;
             } else if filter {
                 fsim.as_mut().expect("case line first").exec(&mut out, line);
             } else {
